@@ -5,6 +5,11 @@ import json, os
 HERE = os.path.dirname(os.path.dirname(os.path.abspath(__file__)))
 
 CHECKS = {
+ "C17": dict(
+    design="DESIGN.md §3 C17",
+    technique="structure-aware fuzzing / property-based testing: attack constructs enumerated at every text and attribute position with Hypothesis-drawn parameters; oracles: strace (open/openat/connect) with per-subprocess control calibration, canary tokens, loop-back listener, rusage bounds",
+    text="Exploration: for XmlDocument/Soap11/Soap12 x validator None/soft/lxml x pipeline/WSGI/SOAP-with-attachments, 15 attack constructs (external general and parameter entities over file/http/ftp/relative, external DTD subsets, XInclude, internal entities, entity chains, quadratic blow-up, recursive entities, deep nesting, 1e5 attributes, huge text) are placed at every text and attribute-value position of three base requests; under strace no canary file may be opened and no connection attempted (a control open+connect in every subprocess must be visible), no canary token may reach user code or the reply, internal entities in text must not be expanded, bombs must end in Client.XMLSyntaxError, each document must stay under 2 s CPU / 256 MiB, and nothing may escape. Held on everything explored; not a proof.",
+    note="Trusted: strace seeing every open/openat/connect (calibrated per subprocess), libxml2's own amplification and depth limits as the definition of a bomb."),
  "C06": dict(
     design="DESIGN.md §3 C06",
     technique="property-based testing (Hypothesis); oracles: libxml2 schema compilation and validation of everything spyne emits, lxml-vs-soft verdict differential arbitrated by an independent constraint predicate",
